@@ -77,6 +77,35 @@ func globalOf(addr ssa.Value) *ssa.Global {
 				continue
 			}
 			return nil
+		case *ssa.Slice:
+			addr = x.X // a slice of a global array aliases it
+		case *ssa.ChangeType:
+			addr = x.X
+		case *ssa.Phi:
+			for _, e := range x.Edges {
+				if g := globalOf(e); g != nil {
+					return g
+				}
+			}
+			return nil
+		case *ssa.Call:
+			// a module function returning (a slice of) a global: follow its returns
+			f := x.Common().StaticCallee()
+			if f == nil || !InModule(f) || f.Blocks == nil {
+				return nil
+			}
+			for _, ret := range returnsOf(f) {
+				for _, rv := range ret.Results {
+					for _, o := range origins(rv) {
+						if o != nil && o != addr {
+							if g := globalOf(o); g != nil {
+								return g
+							}
+						}
+					}
+				}
+			}
+			return nil
 		default:
 			return nil
 		}
